@@ -745,6 +745,32 @@ package common
 //@     invariant forall k :: {proposers[k]} 0 <= k && k < i ==> (let sd := slot_seed(spec, st_mixes(state), epoch, epoch * spec.SLOTS_PER_EPOCH + k) in prop_scan(spec.MAX_EFFECTIVE_BALANCE, st_vals(state), spec.SHUFFLE_ROUND_COUNT % 256, active, sd, 0) >= 0 && proposers[k] == prop_cand(spec.SHUFFLE_ROUND_COUNT % 256, active, sd, prop_scan(spec.MAX_EFFECTIVE_BALANCE, st_vals(state), spec.SHUFFLE_ROUND_COUNT % 256, active, sd, 0)))
 
 
+// more of the validator / registry views (assumed interface models; snapshot semantics: a view read twice
+// without an intervening write gives the same answer - used by contracts of functions that read before they write)
+//@ ufun reg_valid_err(RegI, int) bool
+//@ ufun reg_valid(RegI, int) bool
+//@ ufun v_exit_err(ValI) bool
+//@ ufun v_exit(ValI) int
+//@ func (r ValidatorRegistry) IsValidIndex(index) (valid, err)
+//@   trusted
+//@   opt noalloc
+//@   ensures (err != nil) == reg_valid_err(r, index)
+//@   ensures err == nil ==> valid == reg_valid(r, index)
+//@ func (v Validator) ExitEpoch() (r, err)
+//@   trusted
+//@   opt noalloc
+//@   ensures (err != nil) == v_exit_err(v)
+//@   ensures err == nil ==> r == v_exit(v)
+
+
+//@ sort HeaderT = BeaconBlockHeader
+//@ ufun header_root(HeaderT) RootT
+//@ func (b *BeaconBlockHeader) HashTreeRoot(hFn) r
+//@   trusted
+//@   opt noalloc
+//@   ensures r == header_root(*b)
+
+
 // BEGIN C18 generated (tools/gen_c18.py in /verif)
 // cancelled: a context cancelled before the call makes it fail; surfaced: a cancellation observed by a poll
 // during the call makes it fail; polled: success after a poll means the context was not cancelled at entry.
